@@ -45,6 +45,17 @@ def segmentsNonEmpty : Bytes → Bool
 termination_by bs => bs.length
 decreasing_by simp only [List.length_drop, List.length_cons]; omega
 
+/-- AIGP value (RFC 7311 §3): TLVs with a 1-octet type and a 2-octet length counting the whole TLV -/
+def aigpTlvs : Bytes → Bool
+  | [] => true
+  | [_] => false
+  | [_, _] => false
+  | _ :: l1 :: l2 :: rest =>
+      if 3 ≤ l1 * 256 + l2 ∧ l1 * 256 + l2 ≤ rest.length + 3 then aigpTlvs (rest.drop (l1 * 256 + l2 - 3))
+      else false
+termination_by bs => bs.length
+decreasing_by simp only [List.length_drop, List.length_cons]; omega
+
 def isBytes (bs : Bytes) : Bool := bs.all (· < 256)
 
 /-- `need c clause rest`: the invariant `c` must hold (else the violation is named `clause`), then `rest` -/
@@ -68,6 +79,10 @@ def binClause (code : Nat) (bs : Bytes) : Option String :=
     else if code = 17 then
       need (bs.length % 2 == 0 && decide (6 ≤ bs.length) && segmentsNonEmpty bs) "bad-as4-path" none
     else if code = 18 then need (bs.length == 8) "bad-length" none
+    -- NEXT_HOP is never stored from the wire (the UPDATE parser consumes it); the API carries an IPv4 or
+    -- (for IPv6 families) an IPv6 next hop in it, which `local_path` takes out again
+    else if code = 3 then need (bs.length == 4 || bs.length == 16) "bad-length" none
+    else if code = 26 then need (aigpTlvs bs) "bad-aigp" none
     else none
 
 /-- invariants of a recognised attribute held as a number -/
